@@ -69,6 +69,8 @@ fn v1_error_name(e: &v1::ParseError) -> &'static str {
 fn v1_err(e: &v1::ParseError, wrap: &str, inc: bool, cmp: bool) -> Value {
     json!({
         "k": "err",
+        "einc": e.is_incomplete(),
+        "ecmp": e.is_complete(),
         "e": v1_error_name(e),
         "w": wrap,
         "inc": inc,
@@ -80,9 +82,19 @@ fn v1_err(e: &v1::ParseError, wrap: &str, inc: bool, cmp: bool) -> Value {
 
 fn v1_bin_err(e: &v1::BinaryParseError, inc: bool, cmp: bool) -> Value {
     match e {
-        v1::BinaryParseError::Parse(p) => v1_err(p, "Parse", inc, cmp),
+        v1::BinaryParseError::Parse(p) => {
+            let mut v = v1_err(p, "Parse", inc, cmp);
+            // the flags of the wrapper value itself
+            v["einc"] = json!(e.is_incomplete());
+            v["ecmp"] = json!(e.is_complete());
+            v["iinc"] = json!(p.is_incomplete());
+            v["icmp"] = json!(p.is_complete());
+            v
+        }
         v1::BinaryParseError::InvalidUtf8(u) => json!({
             "k": "err",
+            "einc": e.is_incomplete(),
+            "ecmp": e.is_complete(),
             "e": "InvalidUtf8",
             "w": "Utf8",
             "inc": inc,
@@ -287,7 +299,7 @@ pub fn v2_err(e: &v2::ParseError) -> Value {
         InvalidTLV(t, l) => ("InvalidTLV", *t as u64, *l as u64),
         Leftovers(n) => ("Leftovers", *n as u64, 0),
     };
-    json!({"k": "err", "e": name, "a": a, "b": b,
+    json!({"k": "err", "e": name, "a": a, "b": b, "einc": e.is_incomplete(), "ecmp": e.is_complete(),
            "msg": guard(|| e.to_string()).unwrap_or_else(|p| format!("PANIC {}", p))})
 }
 
